@@ -491,6 +491,13 @@ func (e *end) schedule(c *chunk, extra int64) {
 	if at <= e.lastAt {
 		at = e.lastAt + 1
 	}
+	// deliveries land in the residue class of the connection's owner, so that two tasks are
+	// never woken by the network at the same simulated nanosecond
+	slot := rt.SlotOf(e.p.task)
+	if e.p.raw {
+		slot = rt.RawSlot(e.p.id)
+	}
+	at = rt.AlignAt(slot, at)
 	e.lastAt = at
 	if c.msg != nil {
 		c.msg.DeliverAt = at
